@@ -11,7 +11,19 @@ if ! go build -tags verif -o bin/verif ./cmd/verif 2>bin/build.log; then
   cat bin/build.log >&2
   exit 2
 fi
+if [ "$1" = "C07" ] || [ "$1" = "replay" -a -n "$VERIF_RACE" ]; then
+  if ! go build -race -tags verif -o bin/verif-race ./cmd/verif 2>bin/build-race.log; then
+    echo "RACE BUILD FAILED (exit 2, not a violation):" >&2
+    cat bin/build-race.log >&2
+    exit 2
+  fi
+fi
 export VERIF_ROOT="$(pwd)"
+if [ "$1" = "replay" ] && grep -q '"rule": "C07/data-race' "$2" 2>/dev/null; then
+  go build -race -tags verif -o bin/verif-race ./cmd/verif 2>bin/build-race.log || exit 2
+  export GORACE="log_path=$(mktemp -d)/racelog halt_on_error=0"
+  exec ./bin/verif-race replay "$2"
+fi
 if [ "$1" = "replay" ]; then
   exec ./bin/verif replay "$2"
 fi
